@@ -67,7 +67,7 @@ _C13 = _c13g
 _C13POST = [h for h in _c13g["SPEC"]["harnesses"] if h["name"] == "c13_post_equiv"][0]
 SPEC = {
     "property": "C12",
-    "level_text": "Bounded symbolic verification of the real shred validation and commitment code. (1) SliceCommitment::new has exactly the documented 49-byte layout and is injective in (slot, slice index, last flag, root). (2) One ValidatedShred::try_new on an arbitrary shred (every header field, tag, payload, position and Merkle path element attacker-chosen) against an honest slice in the documented tree shape, with an arbitrary signature and an arbitrary cached commitment: the solver shows that the shred is accepted iff an identical commitment is cached or the given leader key signed exactly slot || slice index || last flag || derived root; that Equivocation is returned iff a different commitment is cached and the leader signed this one too; that the cached path never accepts a different commitment and never skips verification otherwise; and that under the honest commitment only the honest payload at its own index with the honest header passes (replay under another slot / slice / flag / index and any alteration are rejected). (3) Two validated shreds through BlockData::add_shred (up to, not including, slice reconstruction) in both arrival orders: conflicting commitments for one slice index are reported as Equivocation exactly when they differ and nothing of the second is stored; for different slice indices Equivocation is reported only for contradictory last-slice markers and always then, except in one input class. Three genuine defects are isolated in harnesses of their own, which FAIL on /repo: c12_tag_m1_k0 (the data/coding tag is bound neither by the signature nor by the Merkle leaf: a tag-flipped shred of a correct leader validates and gets that leader flagged), c12_lastorder (a last-slice marker below an already received slice is not reported in the arrival order 'higher slice first': the stored slice is dropped silently and FirstShred is announced a second time), c12_lastcache (the commitment of a shred rejected as equivocation stays cached). Sampling cannot enumerate header/path/cache/signature combinations; the solver covers all of them inside the bounds. Not a proof: Merkle paths of at most 3 elements over slices of at most 4 shreds, 2-byte payloads.",
+    "level_text": "Bounded symbolic verification of the real shred validation and commitment code. (1) SliceCommitment::new has exactly the documented 49-byte layout and is injective in (slot, slice index, last flag, root). (2) One ValidatedShred::try_new on an arbitrary shred (every header field, tag, payload, position and Merkle path element attacker-chosen) against an honest slice in the documented tree shape, with an arbitrary signature and an arbitrary cached commitment: the solver shows that the shred is accepted iff an identical commitment is cached or the given leader key signed exactly slot || slice index || last flag || derived root; that Equivocation is returned iff a different commitment is cached and the leader signed this one too; that the cached path never accepts a different commitment and never skips verification otherwise; and that under the honest commitment only the honest payload at its own index with the honest header passes (replay under another slot / slice / flag / index and any alteration are rejected). (3) Two validated shreds through BlockData::add_shred (up to, not including, slice reconstruction) in both arrival orders: conflicting commitments for one slice index are reported as Equivocation exactly when they differ and nothing of the second is stored; for different slice indices Equivocation is reported only for contradictory last-slice markers and always then, except in one input class. Three genuine defects are isolated in harnesses of their own, which FAIL on /repo: c12_tag_m1_k0 (the data/coding tag is bound neither by the signature nor by the Merkle leaf: a tag-flipped shred of a correct leader validates and gets that leader flagged), c12_lastorder (a last-slice marker below an already received slice is not reported in the arrival order 'higher slice first': the stored slice is dropped silently and FirstShred is announced a second time), c12_lastcache (the commitment of a shred rejected as equivocation stays cached). Sampling cannot enumerate header/path/cache/signature combinations; the solver covers all of them inside the bounds. Not a proof: Merkle paths of at most 3 elements over slices of at most 4 shreds, 2-byte payloads. Equivocation after completion (c13_post_equiv, shared with C13): once the block of the slot has been assembled, a second validly signed shred is still reported as equivocation exactly when it contradicts what was accepted.",
     "level_note": "Assumes SHA-256 is collision-free and consistent with the EMPTY_ROOTS constants (oracle stub) and Ed25519 is an ideal signature scheme (verifies iff that key signed exactly those bytes; oracle stub at ed25519_zebra::VerificationKey::verify, alpenglow's verify_bytes stays real); counterexamples are replayed with real SHA-256 and real keys. Scaled model: slices of 1..4 shreds / paths of 0..3 elements stand for 64 shreds / 6 elements, the shred index ranges over the width of the honest tree (as ShredIndex < TOTAL_SHREDS does). Blockstore harnesses: std BTreeMap of slot_block_data.rs replaced by a bounded array map (capacity 3, boxed values, leaked instead of dropped) under Kani, log level pinned to Off, BlockData::try_reconstruct_slice cut to its 'not enough shreds' exit (2 shreds < 32; the real function walks the 64-entry shred array five times and alone exceeds the symbolic-execution budget: measured > 15 min). Trusts Kani's MIR translation, CBMC, CaDiCaL; pointer-validity checks off.",
     "design_ref": "DESIGN.md §4 C12",
     "overlays": SHARED_OVERLAYS + [
